@@ -10,7 +10,7 @@ process-wide MAX_LEVEL the macros compare against first).  Their models are C07'
 restated here as the C08 obligations, next to the per-filter ones of Props/C08.
 -/
 import TracingModel.Props.C08
-import TracingModel.Props.C12
+import TracingModel.Lemmas.StackHint
 
 namespace C08
 open TM.Reload TM.Filtering TM.FilterExpr TM.Directive TM.FilteringLemmas
